@@ -82,14 +82,31 @@ func c16Enumerate(tier string, seed int64, emit func(string, any)) {
 			}
 		})
 	}
+	var stCfgs []drv.Cfg
+	for _, base := range []drv.Cfg{plain[0], plain[15]} {
+		for fl := 0; fl < 8; fl++ {
+			c := base
+			c.NoStmts, c.NoNDice, c.NoBitwise = fl&1 != 0, fl&2 != 0, fl&4 != 0
+			stCfgs = append(stCfgs, c)
+		}
+	}
+	c16StInputs(func(s string) {
+		for _, c := range stCfgs {
+			emit("st edit lists", c16Case{Srcs: []string{s, "if 1 {2}", "2d", "1&3", "b"}, Cfg: c})
+		}
+	})
 	// sequences: a run with macros must not change what later runs may do
 	probes := []string{"b", "p1", "2a10", "a10", "f", "2c10", "if 1 {2}", "func g(){1}", "2d", "1&3", "x = b; x", "&y = f; y"}
 	firsts := []string{}
 	gen.StringsUpTo(gateTokensSmall, 2, func(s string) {
 		if strings.Contains(s, "#EnableDice") {
-			firsts = append(firsts, s)
+			macro := "// #EnableDice coc true\n// #EnableDice wod true\n// #EnableDice fate true\n// #EnableDice doublecross true\n"
+	firsts = append(firsts, macro+"b2 + 1/0", macro+"f + nosuch()", macro+"[1,2][5] + 2a10", macro+"2c10; x.y.z", macro+"`{% b %}{1/0}`", macro+"func g(){ b + 1/0 }; g()", macro+"&cc = p1 + [][0]; cc")
+	firsts = append(firsts, s)
 		}
 	})
+	macro := "// #EnableDice coc true\n// #EnableDice wod true\n// #EnableDice fate true\n// #EnableDice doublecross true\n"
+	firsts = append(firsts, macro+"b2 + 1/0", macro+"f + nosuch()", macro+"[1,2][5] + 2a10", macro+"2c10; x.y.z", macro+"`{% b %}{1/0}`", macro+"func g(){ b + 1/0 }; g()", macro+"&cc = p1 + [][0]; cc")
 	firsts = append(firsts,
 		"// #EnableDice coc true\nfunc g(){b}",
 		"// #EnableDice wod true\n&z = 2a10",
@@ -104,6 +121,22 @@ func c16Enumerate(tier string, seed int64, emit func(string, any)) {
 				emit("sequences", c16Case{Srcs: []string{f, p}, Cfg: c})
 				emit("sequences", c16Case{Srcs: []string{f, p, f, p}, Cfg: c})
 			}
+		}
+	}
+}
+
+// st edit lists: values parsed under the st flag push (statements / implicit dice / bitwise disabled inside values)
+func c16StInputs(emit func(s string)) {
+	vals := []string{"1", "(1)", "(1+2)", "2d6", "(`{% if 1 { 2 } %}`)", "`{% if 1 { 2 } %}`", "(`{% while 0 { } %}`)", "(`{% func g(){1} %}`)", "(2d)", "2d", "(1&3)", "1&3", "(b)", "b", "(2a10)", "f", "(`{b}`)"}
+	for _, a := range vals {
+		emit("^stx=" + a)
+		emit("^stx+" + a)
+		emit("^st&x=" + a)
+		for _, b := range vals {
+			emit("^stx=" + a + " y=" + b)
+			emit("^stx=" + a + ",y=" + b)
+			emit("^stx:" + a + " &y=" + b)
+			emit("^stx+" + a + " y+" + b)
 		}
 	}
 }
@@ -232,7 +265,7 @@ func cfgEqual(a, b ds.RollConfig) bool {
 func init() {
 	harn.Register(&harn.Check{
 		ID:   "C16",
-		Rule: "inputs: every token string up to the stated length over the gating alphabet (dice letters, digits, brackets, keywords, template openers, the #EnableDice macros) x all 2^4 family settings x DisableStmts/NDice/Bitwise, plus run sequences (macro-bearing input followed by probes on the same VM). Oracle: the compiled listing of the program and of every nested function/computed body, and every instruction dispatched at any sub-VM depth (VerifStep), contains no opcode of a disabled family unless the input itself carries the enabling macro; no statement opcodes / backward jumps under DisableStmts; no implicit-sides dice under DisableNDice; no bitwise opcodes under DisableBitwiseOp; the VM configuration is field-for-field unchanged by every run. Non-trivial = accepted by the parser; distinct by (sources, configuration).",
+		Rule: "inputs: every token string up to the stated length over the gating alphabet (dice letters, digits, brackets, keywords, template openers, the #EnableDice macros) x all 2^4 family settings x DisableStmts/NDice/Bitwise, st edit lists of <= 2 edits over 17 value shapes (statement-bearing templates, implicit dice, bitwise, dice letters; the st value context pushes and pops flags) under 16 flag settings, each followed by probes on the same VM; plus run sequences (macro-bearing input — also ones that fail at run time — followed by probes on the same VM). Oracle: the compiled listing of the program and of every nested function/computed body, and every instruction dispatched at any sub-VM depth (VerifStep), contains no opcode of a disabled family unless the input itself carries the enabling macro; no statement opcodes / backward jumps under DisableStmts; no implicit-sides dice under DisableNDice; no bitwise opcodes under DisableBitwiseOp; the VM configuration is field-for-field unchanged by every run. Non-trivial = accepted by the parser; distinct by (sources, configuration).",
 		Enumerate: c16Enumerate,
 		Run:       c16Run,
 		Budget:    map[string]time.Duration{"quick": 170 * time.Second, "thorough": 40 * time.Minute},
